@@ -55,6 +55,9 @@ pub enum Stage {
     TapSink,
     /// Two float branches merged into complex samples.
     DiamondF2C(Vec<Stage>, Vec<Stage>),
+    /// A second finite source (seed, length) merged in with Add (floats) or
+    /// Xor (bytes/bits): the shorter input ends the merged stream.
+    MergeSource(u64, usize),
 }
 
 #[derive(Clone, Debug)]
@@ -81,7 +84,7 @@ impl Recipe {
         json!({"source": format!("{:?} x {}{}", self.src_ty, self.src_len, if self.infinite {" (infinite)"} else {""}), "stages": self.stages.iter().map(|s| stage_name(s)).collect::<Vec<_>>(), "sink": format!("{:?}", self.sink)})
     }
     pub fn nblocks(&self) -> usize {
-        2 + self.stages.iter().map(|s| match s { Stage::Diamond(a, b) | Stage::DiamondF2C(a, b) => 2 + a.len() + b.len(), Stage::BurstRoundTrip(..) => 5, Stage::TapSink => 2, _ => 1 }).sum::<usize>() + matches!(self.sink, SinkKind::Hdlc) as usize
+        2 + self.stages.iter().map(|s| match s { Stage::Diamond(a, b) | Stage::DiamondF2C(a, b) => 2 + a.len() + b.len(), Stage::BurstRoundTrip(..) => 5, Stage::TapSink | Stage::MergeSource(..) => 2, _ => 1 }).sum::<usize>() + matches!(self.sink, SinkKind::Hdlc) as usize
     }
 }
 
@@ -125,13 +128,22 @@ fn gen_stage(src: &mut Src, ty: Ty, cap_bytes: usize, allow_diamond: bool) -> (S
                     (Stage::Correlate(code, src.below(3)), ty)
                 }
                 _ => {
-                    let a = gen_branch(src, ty, cap_bytes);
-                    let b = gen_branch(src, ty, cap_bytes);
-                    (Stage::Diamond(a, b), ty)
+                    if src.coin() {
+                        let a = gen_branch(src, ty, cap_bytes);
+                        let b = gen_branch(src, ty, cap_bytes);
+                        (Stage::Diamond(a, b), ty)
+                    } else {
+                        let l = match src.below(4) {
+                            0 => 0,
+                            1 => cap(1) + 1,
+                            _ => src.range(1, 2 * cap(1)),
+                        };
+                        (Stage::MergeSource(src.bits(), l), ty)
+                    }
                 }
             }
         }
-        Ty::F32 => match src.below(9 + 4 * allow_diamond as usize) {
+        Ty::F32 => match src.below(9 + 5 * allow_diamond as usize) {
             0 => (Stage::AddConstF((src.below(41) as f32 - 20.0) * 0.25), ty),
             1 => (Stage::MulConstF((src.below(41) as f32 - 20.0) * 0.125), ty),
             2 => (Stage::DelayS(src.below(cap(4) / 4)), ty),
@@ -152,7 +164,15 @@ fn gen_stage(src: &mut Src, ty: Ty, cap_bytes: usize, allow_diamond: bool) -> (S
                 (Stage::DiamondF2C(a, b), Ty::C32)
             }
             11 => (Stage::BurstRoundTrip(*src.pick(&[1.0f32, -1.0, 0.5]), *src.pick(&[0.0f32, 0.5, -0.5]), *src.pick(&[20usize, 200, 5000]), *src.pick(&[0usize, 1, 4])), ty),
-            _ => (Stage::TapSink, ty),
+            12 => (Stage::TapSink, ty),
+            _ => {
+                let l = match src.below(4) {
+                    0 => 0,
+                    1 => cap(4) + 1,
+                    _ => src.range(1, 2 * cap(4)),
+                };
+                (Stage::MergeSource(src.bits(), l), ty)
+            }
         },
         Ty::C32 => match src.below(6) {
             0 => (Stage::AddConstC((src.below(9) as f32 - 4.0) * 0.5, (src.below(9) as f32 - 4.0) * 0.5), ty),
@@ -210,7 +230,7 @@ pub fn gen_recipe(src: &mut Src, cap_bytes: usize, max_stages: usize) -> Recipe 
     let mut diamonds = 0;
     for _ in 0..ns {
         let (s, t) = gen_stage(src, ty, cap_bytes, diamonds == 0);
-        if matches!(s, Stage::Diamond(..) | Stage::DiamondF2C(..) | Stage::BurstRoundTrip(..) | Stage::TapSink) {
+        if matches!(s, Stage::Diamond(..) | Stage::DiamondF2C(..) | Stage::BurstRoundTrip(..) | Stage::TapSink | Stage::MergeSource(..)) {
             diamonds += 1;
         }
         stages.push(s);
@@ -413,6 +433,19 @@ fn build_stage_x(s: &Stage, input: St, blocks: &mut Vec<Box<dyn Block + Send>>, 
             let taps: Vec<Complex> = t.iter().map(|&x| Complex::new(x, 0.0)).collect();
             let (b, o) = FirFilterBuilder::new(&taps).deci(*d).build(r);
             push!(b, o, C32)
+        }
+        (Stage::MergeSource(seed, len), St::U8(r)) => {
+            // Bits stay bits: the second source is drawn as bits too.
+            let (b2, o2) = VectorSource::new(source_data_u8(*seed, *len, true));
+            blocks.push(Box::new(b2));
+            let (m, o) = Xor::new(r, o2);
+            push!(m, o, U8)
+        }
+        (Stage::MergeSource(seed, len), St::F32(r)) => {
+            let (b2, o2) = VectorSource::new(source_data_f32(*seed, *len));
+            blocks.push(Box::new(b2));
+            let (m, o) = Add::<Float, Float, Float>::new(r, o2);
+            push!(m, o, F32)
         }
         (Stage::Correlate(code, d), St::U8(r)) => {
             let (b, o) = CorrelateAccessCode::new(r, code.clone(), *d);
